@@ -119,6 +119,12 @@ func c18Case(w *core.W, j int) {
 		w.Inconclusive("keygen:" + err.Error())
 		return
 	}
+	if j == 5 { // (one case per run) a key whose tag is 0
+		if k0, e0 := tagZeroKey(keyName.Pres(), 512); e0 == nil {
+			k = k0
+			w.Count("tag_zero_keys", 1)
+		}
+	}
 	an := algName(alg)
 	key := &dns.KEY{DNSKEY: *dns.Copy(k.Key).(*dns.DNSKEY)}
 	key.Hdr.Rrtype = dns.TypeKEY
@@ -179,6 +185,10 @@ func c18Case(w *core.W, j int) {
 	}
 	keyf := func(s string) string { return "C18/" + s + "/" + an }
 	if err != nil {
+		if key.KeyTag() == 0 {
+			w.Violation("C18/sign-fails/key-tag-0", fmt.Sprintf("Sign with a key whose (correct) tag is 0 fails: %v", err), wit)
+			return
+		}
 		w.Violation(keyf("sign-fails/"+kindClass(kind)), fmt.Sprintf("Sign failed on a packable %d-octet message (compress=%v, kind %s): %v", len(plain), m.Compress, kind, err), wit)
 		return
 	}
@@ -337,6 +347,22 @@ func c18Case(w *core.W, j int) {
 					w.Violation(keyf("accepts-key-of-other-algorithm/"+algName(oa)), "the signed message verifies under a KEY of another algorithm", wit)
 				}
 				w.Count("key_alterations", 1)
+			}
+		}
+		// a key owner in which a letter of the signer name is replaced by a Unicode character that
+		// "folds" to it (U+017F long s, U+212A Kelvin sign): another name, whatever Unicode says
+		{
+			kn := keyName.Pres()
+			for _, fp := range [][2]string{{"s", "\u017f"}, {"S", "\u017f"}, {"k", "\u212a"}, {"K", "\u212a"}} {
+				if i := strings.Index(kn, fp[0]); i >= 0 {
+					key7 := &dns.KEY{DNSKEY: *dns.Copy(k.Key).(*dns.DNSKEY)}
+					key7.Hdr.Rrtype = dns.TypeKEY
+					key7.Hdr.Name = kn[:i] + fp[1] + kn[i+1:]
+					if verr, ok := verify(sig, key7, out); ok && verr == nil {
+						w.Violation(keyf("accepts-other-signer-name/unicode-fold"), fmt.Sprintf("signer %q verifies under a key owned by %q", kn, key7.Hdr.Name), wit)
+					}
+					w.Count("key_alterations", 1)
+				}
 			}
 		}
 		// the right owner, algorithm and tag field, but a public key that cannot be a key of that
